@@ -74,7 +74,44 @@ class ConvHooks(Hooks):
             if cur is None or len(accs) != 1:
                 return Lin.const(0)
             return cur.scale(4) - I.as_u(st2, accs[0]).scale(eb)
-        return [('acc<=4cur', lin)]
+        cands = [('acc<=4cur', lin)]
+        # relations between the input cursor and the other carried integers / the end of the input, for loops that are not of
+        # the plain `while (cursor < end)` form (do-while with a non-empty guard in front, countdown of the remaining units):
+        # proposed here, base case decided on loop entry, inductive step verified at every back edge by the interpreter
+        slot_names = list(getattr(I, 'cur_slots', None) or [('phi', ph.id) for ph in phis])
+
+        def slot_val(st2, fr, name):
+            return I.slot_value(st2, fr, name, {}) if name[0] == 'cell' else fr.regs.get(name[1])
+
+        def cursor(st2, fr):
+            for name in slot_names:
+                v = slot_val(st2, fr, name)
+                if isinstance(v, PtrV) and v.obj == 'IN':
+                    return v.off
+                if isinstance(v, IntV) and self.in_index == (fn.name, name):
+                    return I.as_u(st2, v).scale(eb)
+            return None
+
+        def head_inside(st2, fr):
+            c = cursor(st2, fr)
+            return (Lin.atom('n').scale(eb) - c - eb) if c is not None else Lin.const(-1)
+        cands.append(('cur<n', head_inside, 'entry'))
+        for nm_ in slot_names:
+            def mk(nm_, sign):
+                def rel(st2, fr):
+                    c = cursor(st2, fr)
+                    v = slot_val(st2, fr, nm_)
+                    if c is None or not isinstance(v, IntV) or v.bits != 64 or self.in_index == (fn.name, nm_):
+                        return Lin.const(-1)
+                    u = I.as_u(st2, v)
+                    if u is None:
+                        return Lin.const(-1)
+                    d = u.scale(eb) + c - Lin.atom('n').scale(eb)          # remaining + consumed == size
+                    return d if sign > 0 else -d
+                return rel
+            cands.append(('rem+cur>=n:%r' % (nm_,), mk(nm_, 1), 'entry'))
+            cands.append(('rem+cur<=n:%r' % (nm_,), mk(nm_, -1), 'entry'))
+        return cands
 
     def on_store(self, I, st, inst, p, v, nbytes):
         if p.obj == 'OUT':
